@@ -142,7 +142,7 @@ def run(ctx):
         "hardware semantics are assumptions of the specification: a walk follows present entries through bits 12-51 of four 512-entry levels; INVLPG is 'the address reached the flush seam'",
         "trusted Go: the software MMU (walk/resolve), the seams ptePtrFn/nextAddrFn/flushTLBEntryFn/activePDTFn/switchPDTFn/frame allocator bound to host memory (frame = host address >> 12), the projection and the event logger in harness/vmm/c04_pagetables_test.go",
         "nextAddrFn receives a host pointer shifted by the kernel; the harness applies the same shift to the virtual entry address and resolves it through the MMU (the shift amount itself is taken from the kernel's computation)",
-        "frame numbers are below 2^40 (52-bit physical addresses); huge pages are not generated; the zero-frame protection (C06) is switched off",
+        "leaf flag sets are drawn from all declared PageTableEntryFlag bits (0-9, 63; bit 7 is PAT on a 4K leaf); frame numbers are below 2^40 (52-bit physical addresses); huge-page UPPER-level entries are not generated; the zero-frame protection (C06) is switched off",
         "translations are observed on a per-case universe of pages (about 45: temp page, reservation window, identity run, pages sharing 0-3 upper-level tables, both canonical halves); new tables are inspected entry by entry",
         "PageDirectoryTable.Init writes through the temporary mapping: the harness hands Init the host alias of whatever frame the temporary page translates to after the real MapTemporary ran",
     ]
@@ -161,7 +161,8 @@ def run(ctx):
         ctx.model_check(d, "MCPageTables", cfg, env={"CASES": raw}, timeout=1500, workers=1 if q else 8)
         raws.append((ib, cfg, raw))
     bugs = ["NoClearNewTable", "NoRestoreRecursive"] if q else \
-           ["NoClearNewTable", "NoRestoreRecursive", "StaleBitsOnRemap", "NoFlushOnUnmap", "NoFlushOnMap", "RegionCountUnrounded"]
+           ["NoClearNewTable", "NoRestoreRecursive", "StaleBitsOnRemap", "NoFlushOnUnmap", "NoFlushOnMap", "RegionCountUnrounded",
+            "UnmapHugeGuardHoisted"]
     for b in bugs:
         ctx.expect_model_violation(d, "MCPageTables", "MCPageTablesBug_" + b, timeout=300, workers=4)
 
